@@ -16,7 +16,7 @@ import random
 
 import numpy as np
 
-from harness import core, tlc
+from harness import equivcalc, core, tlc
 
 
 def gen_pool_cases(rng, n):
@@ -102,6 +102,8 @@ def make_input(kind, key, sig, N, D, jr, jnp):
             v = jr.normal(kk, shp)
         elif kind == "sparse":
             v = jr.normal(kk, shp) * (jr.uniform(jr.fold_in(kk, 1), (c,) + (N,) * D + (1,) * t[0]) < 0.15)
+        elif kind == "small":      # amplitudes comparable with sqrt(eps): where a misplaced eps shows
+            v = 0.05 * jr.normal(kk, shp)
         elif kind == "constant":
             v = jnp.broadcast_to(jr.normal(kk, (c,) + (1,) * D + (D,) * t[0]), shp)
         else:
@@ -196,12 +198,31 @@ def main(tier):
         chk.distinct.add(core.chash(c))
     chk.samples.append({"image": cases[0]["img"], "q": cases[0]["q"], "avg_numerators": exp[1]["avgnum"], "den": exp[1]["den"], "maxpool": exp[1]["maxpool"]})
     # ---- float part --------------------------------------------------------------------------------------
+    # ---- typing calculus: EquivCalculus.tla model-checked, its layer graphs bound to the real layers ------------
+    graphs = equivcalc.run_mc(chk)
+    summ = equivcalc.summarise(equivcalc.bind_all(graphs, tier, kinds=("groupnorm", "vn", "maxnormpool"))) if graphs else {}
+    unbound = {k: d["unbound"] for k, d in summ.items() if d["unbound"] or not d["bound"]}
+    for k in ("groupnorm", "vn", "maxnormpool"):
+        if k not in summ:
+            unbound[k] = [[None, "no binding result"]]
+    for k, why in sorted(unbound.items()):
+        print("NOTE typing calculus not bound to %s on this tree (%s): the all-parameters argument is not established for it; "
+              "escalating the numerical equation test" % (k, "; ".join("%s %s" % (t, w) for t, w in why[:3])), flush=True)
+    chk.extra["typing_calculus"] = {"graphs_model_checked": len(graphs), "bound": {k: d["bound"] for k, d in summ.items()},
+                                    "unbound": unbound,
+                                    "meaning": "bound = the real layer equals its well-typed data-flow graph at generic inputs and parameter values, "
+                                               "so it commutes with the group for every parameter value (EquivCalculus.tla)"}
+    calc_kind = {"GroupNorm": "groupnorm", "LayerNorm": "groupnorm", "VN": "vn", "MaxNormPool": "maxnormpool"}
     fitems = []
     kinds = ["generic", "sparse", "constant", "zero"]
-    for rep in range(1 if tier == "quick" else 5):
+    base_reps = 1 if tier == "quick" else 5
+    for rep in range(base_reps + 6):
         for (lk, D, groups) in [("GroupNorm", 2, 2), ("GroupNorm", 2, 1), ("LayerNorm", 2, 1), ("GroupNorm", 3, 2), ("VN", 2, 1), ("VN", 3, 1),
                                 ("MaxNormPool", 2, 1), ("MaxNormPool", 3, 1)]:
-            for ik in kinds:
+            esc = calc_kind[lk] in unbound
+            if rep >= base_reps and not esc:
+                continue
+            for ik in kinds + (["small"] if esc else []):
                 if lk == "MaxNormPool" and ik != "generic":
                     continue
                 fitems.append((len(fitems), core.SEED * 11 + 17 * len(fitems) + rep, lk, D, groups, ik))
